@@ -486,10 +486,10 @@ fn shadow_name_subjects(tier: Tier, out: &mut Vec<Subj>) {
 pub fn arbitrary_int_subjects(tier: Tier, out: &mut Vec<Subj>) {
     shadow_name_subjects(tier, out);
     let tys: Vec<IntTy> = match tier {
-        Tier::Quick => vec![IntTy::U8, IntTy::I16, IntTy::I32, IntTy::U64],
+        Tier::Quick => vec![IntTy::U8, IntTy::I16, IntTy::I32, IntTy::U64, IntTy::Usize, IntTy::Isize],
         Tier::Thorough => ALL_INT.to_vec(),
     };
-    let forms = [Form::Lit, Form::Const, Form::Shl, Form::Plus1, Form::Paren, Form::Minus1, Form::AsCast, Form::Mul2, Form::FnCall, Form::ModPath, Form::Block, Form::NotConst];
+    let forms = [Form::Lit, Form::Const, Form::Shl, Form::Plus1, Form::Paren, Form::Minus1, Form::AsCast, Form::Mul2, Form::FnCall, Form::ModPath, Form::Block, Form::NotConst, Form::Shr];
     let mut n = 0usize;
     for t in tys {
         let v = |x: i128| t.val(x).unwrap();
@@ -946,6 +946,19 @@ pub fn arbitrary_string_subjects(tier: Tier, out: &mut Vec<Subj>) {
             }
         }
     }
+    // length limits written as expressions whose top-level operator binds looser than `+` (the generator derives a
+    // default upper limit from the lower one)
+    for (k, (mn_form, with_max)) in [(Form::Shr, false), (Form::Shl, true), (Form::Shr, true), (Form::Minus1, false)].into_iter().enumerate() {
+        let mut vs = vec![Vd::LenCharMin(Bound { v: Val::U(2), form: mn_form })];
+        if with_max {
+            vs.push(Vd::LenCharMax(Bound { v: Val::U(4), form: if k % 2 == 0 { Form::Shr } else { Form::Shl } }));
+        }
+        let mut d = Decl::new("X", Inner::Str);
+        d.sans = if k % 2 == 0 { vec![] } else { vec![San::Trim] };
+        d.validation = Validation::Std(vs);
+        d.derives = vec![Tr::Debug, Tr::Clone, Tr::PartialEq, Tr::Eq, Tr::Arbitrary, Tr::TryFrom, Tr::Into, Tr::Display, Tr::AsRef];
+        out.push(Subj { decl: d, tag: "string/arb/expression-limits".into(), serde_full: false });
+    }
     // the lower length limits the generator has to merge: `not_empty` next to a literal / constant
     // `len_char_min` of 0, 1, 2 (in both written orders), with and without an upper limit and `trim`
     let mut k = 0usize;
@@ -1049,6 +1062,29 @@ pub fn any_subjects(_tier: Tier, out: &mut Vec<Subj>) {
 
 /// custom functions spelled as a bare identifier (`use ulib::f; .. with = f`): the shortest token
 /// stream a custom-function position can hold
+/// custom functions written as closures with an early `return`, followed by further sanitizers / validators
+pub fn closure_return_subjects(_tier: Tier, out: &mut Vec<Subj>) {
+    let c = Spell::ClosureReturn;
+    let shapes: Vec<(Inner, Vec<San>, Validation)> = vec![
+        (Inner::Str, vec![San::With(UFn::StripX, c), San::Trim, San::Lower], Validation::None),
+        (Inner::Str, vec![San::With(UFn::StripX, c), San::Trim, San::Lower], Validation::Std(vec![Vd::NotEmpty, Vd::LenCharMax(Bound::lit(Val::U(3)))])),
+        (Inner::Str, vec![San::Upper, San::With(UFn::OrAnon, c), San::Trim], Validation::Std(vec![Vd::Predicate(UFn::NoX, c), Vd::LenCharMin(Bound::lit(Val::U(1)))])),
+        // (custom validation is written as a path: only function paths are documented for `validate(with = ..)`)
+        (Inner::Str, vec![San::With(UFn::Truncate3, c), San::Trim], Validation::Custom(UFn::CheckStr, Spell::Path)),
+        (Inner::Int(IntTy::I16), vec![San::With(UFn::Clamp10_100, c)], Validation::Std(vec![Vd::Predicate(UFn::IsEven, c), Vd::LessOrEqual(Bound::lit(Val::I(90)))])),
+        (Inner::F64, vec![San::With(UFn::AbsF, c)], Validation::Std(vec![Vd::Predicate(UFn::IsIntegral, c), Vd::Less(Bound::lit(Val::f64(9.0)))])),
+        (Inner::VecI64, vec![San::With(UFn::SortDedup, c)], Validation::Std(vec![Vd::Predicate(UFn::VecShort, c)])),
+    ];
+    for (i, (inner, sans, val)) in shapes.into_iter().enumerate() {
+        let mut d = Decl::new("X", inner);
+        d.sans = sans;
+        d.validation = val;
+        d.derives = max_derives(&d, i % 2 == 0);
+        d.derives.retain(|t| !matches!(t, Tr::Arbitrary));
+        out.push(Subj { decl: d, tag: "closure-with-return".into(), serde_full: false });
+    }
+}
+
 pub fn bare_spelling_subjects(_tier: Tier, out: &mut Vec<Subj>) {
     let b = Spell::Bare;
     let u8v = |x: i128| Bound::lit(IntTy::U8.val(x).unwrap());
@@ -1114,6 +1150,7 @@ pub fn rt_subjects(tier: Tier) -> Vec<Subj> {
     string_subjects(tier, &mut out);
     any_subjects(tier, &mut out);
     bare_spelling_subjects(tier, &mut out);
+    closure_return_subjects(tier, &mut out);
     default_expr_subjects(tier, &mut out);
     for (i, s) in out.iter_mut().enumerate() {
         s.decl.name = name_for(i);
